@@ -537,6 +537,8 @@ class Folder:
                 return v[i]
             except KeyError:
                 raise Raised("KeyError")
+        if self.symbolic and isinstance(v, Obj):
+            return Sym(f"{v.label}[{self._sym_index(n.slice, env)}]")
         raise Refuse("subscript of unknown")
 
     def e_Attribute(self, n, env):
@@ -549,6 +551,9 @@ class Folder:
             if n.attr in v.fields:
                 return v.fields[n.attr]
             raise Raised("AttributeError", n)
+        if self.symbolic and isinstance(v, Opaque) and v.tag == "callable":
+            # member of an imported module / class of the repository: an opaque constant named by its dotted path
+            return Opaque("callable", f"{v.label}.{n.attr}")
         raise Refuse(f"attribute {n.attr}")
 
     _STR_METHODS = ("find", "index", "upper", "lower", "replace", "startswith", "endswith", "strip")
@@ -576,6 +581,9 @@ class Folder:
             return recv.get(args[0], args[1] if len(args) > 1 else None)
         if isinstance(recv, dict) and f.attr == "pop" and len(args) == 2:
             return recv.pop(args[0], args[1])
+        if isinstance(recv, Obj) and callable(recv.fields.get(f.attr)) and not isinstance(recv.fields.get(f.attr), (Opaque, Sym)):
+            # a method supplied by the rule that set up the fold (stand-in for a library object)
+            return recv.fields[f.attr](args, self._kwargs(n, env))
         if isinstance(recv, Obj) and not self.symbolic:
             cf = self._ctx_func()
             if cf is not None:
@@ -586,16 +594,43 @@ class Folder:
                 except Exception:
                     t = None
                 if t is not None and hasattr(t, "node") and isinstance(t.node, ast.FunctionDef) and t.params and t.params[0] in ("self", "cls") and len(self.func_stack) < 8:
-                    kw = {k.arg: self.ev(k.value, env) for k in n.keywords if k.arg}
+                    kw = self._kwargs(n, env)
                     return self.call(t.node, [recv] + args, kw)
         raise Refuse(f"method {f.attr} on {type(recv).__name__}")
 
+    def _kwargs(self, n, env):
+        """Keyword arguments of a call; `**d` is spread when d folds to a dict with string keys (it is skipped otherwise, as before)."""
+        kw = {}
+        for k in n.keywords:
+            if k.arg:
+                kw[k.arg] = self.ev(k.value, env)
+            else:
+                try:
+                    d = self.ev(k.value, env)
+                except Refuse:
+                    continue
+                if isinstance(d, dict) and all(isinstance(x, str) for x in d):
+                    kw.update(d)
+                elif self.symbolic:
+                    kw["**"] = d
+        return kw
+
     def e_Call(self, n, env):
         f = n.func
+        ov = getattr(self, "overrides", None)
+        if ov:
+            try:
+                key = ast.unparse(f)
+            except Exception:
+                key = None
+            if key in ov:
+                args = [self.ev(a, env) for a in n.args if not isinstance(a, ast.Starred)]
+                kw = self._kwargs(n, env)
+                return ov[key](args, kw)
         if isinstance(f, ast.Name) and isinstance(env.get(f.id), _Closure):
             cl = env[f.id]
             args = [self.ev(a, env) for a in n.args]
-            kw = {k.arg: self.ev(k.value, env) for k in n.keywords if k.arg}
+            kw = self._kwargs(n, env)
             return self.call(cl.fnode, args, kw, base_env=cl.env)
         name = None
         if isinstance(f, ast.Name):
@@ -612,7 +647,7 @@ class Folder:
                     args.extend(v)
                 else:
                     args.append(self.ev(a, env))
-            kw = {k.arg: self.ev(k.value, env) for k in n.keywords if k.arg}
+            kw = self._kwargs(n, env)
             return getattr(self, "c_" + name.replace(".", "_"))(args, kw)
         if isinstance(f, ast.Attribute) and not (isinstance(f.value, ast.Name) and f.value.id in ("np", "numpy", "math", "darsia", "da")):
             try:
@@ -624,7 +659,7 @@ class Folder:
             tgt = self.resolver(n)
             if tgt is not None:
                 args = [self.ev(a, env) for a in n.args]
-                kw = {k.arg: self.ev(k.value, env) for k in n.keywords if k.arg}
+                kw = self._kwargs(n, env)
                 return self.call(tgt, args, kw)
         cf = self._ctx_func()
         if cf is not None:
@@ -637,14 +672,14 @@ class Folder:
             if t is not None and hasattr(t, "node") and isinstance(t.node, ast.FunctionDef) and not t.node.decorator_list:
                 if not self.symbolic:
                     args = [self.ev(a, env) for a in n.args]
-                    kw = {k.arg: self.ev(k.value, env) for k in n.keywords if k.arg}
+                    kw = self._kwargs(n, env)
                     if isinstance(f, ast.Attribute) and getattr(t, "cls", None) is not None and t.params and t.params[0] in ("self", "cls"):
                         args = [self.ev(f.value, env)] + args
                     return self.call(t.node, args, kw)
                 # symbolic mode: a repository function is folded when its arguments are concrete (table look-ups); otherwise it stays a symbol
                 try:
                     args = [self.ev(a, env) for a in n.args]
-                    kw = {k.arg: self.ev(k.value, env) for k in n.keywords if k.arg}
+                    kw = self._kwargs(n, env)
                     if all(not isinstance(x, (Sym, Opaque, Obj)) for x in list(args) + list(kw.values())) and getattr(t, "cls", None) is None:
                         sub = Folder()
                         return sub.call(t.node, args, kw)
@@ -672,7 +707,7 @@ class Folder:
                     pass
         if self.symbolic:
             args = [self.ev(a, env) for a in n.args if not isinstance(a, ast.Starred)]
-            kw = {k.arg: self.ev(k.value, env) for k in n.keywords if k.arg}
+            kw = self._kwargs(n, env)
             if isinstance(f, ast.Attribute):
                 try:
                     recv = self.ev(f.value, env)
